@@ -20,6 +20,7 @@ import (
 const rtImport = "github.com/MichaelMure/git-bug/zzverif/verifrt"
 const glImport = "github.com/MichaelMure/git-bug/zzverif/gitlabhook"
 const fsImport = "github.com/MichaelMure/git-bug/zzverif/verifrtfs"
+const envImport = "github.com/MichaelMure/git-bug/zzverif/verifenv"
 
 // directories of /repo whose non-test files are instrumented
 var roots = []string{"api", "bridge", "cache", "commands", "entities", "entity", "query", "repository", "util", "termui"}
@@ -211,6 +212,8 @@ func processDir(repo, rel string, files []string, out string, replace map[string
 		glName := importName(p.f, "github.com/xanzy/go-gitlab", "gitlab")
 		osfsName := importName(p.f, "github.com/go-git/go-billy/v5/osfs", "osfs")
 		needFs := false
+		envName := importName(p.f, "github.com/MichaelMure/git-bug/commands/execenv", "execenv")
+		needEnv := false
 		usedTime, usedOs, usedProc, usedGl := false, false, false, false
 		needGl := false
 
@@ -323,6 +326,11 @@ func processDir(repo, rel string, files []string, out string, replace map[string
 					se := t.Fun.(*ast.SelectorExpr)
 					add(off(se.Pos()), off(se.End())-off(se.Pos()), "verifrt.IsRunning")
 					counts["R-pid"]++
+				} else if isPkgSel(t.Fun, envName, "NewEnv") && rel == "commands" && len(t.Args) == 0 {
+					add(off(t.Pos()), 0, "verifenv.Track(")
+					add(off(t.End()), 0, ")")
+					counts["R-env"]++
+					needEnv = true
 				} else if isPkgSel(t.Fun, osfsName, "New") && rel == "repository" {
 					se := t.Fun.(*ast.SelectorExpr)
 					add(off(se.Pos()), off(se.End())-off(se.Pos()), "verifrtfs.New")
@@ -365,6 +373,9 @@ func processDir(repo, rel string, files []string, out string, replace map[string
 		}
 		if needFs {
 			imp += "; import verifrtfs " + strconv.Quote(fsImport)
+		}
+		if needEnv {
+			imp += "; import verifenv " + strconv.Quote(envImport)
 		}
 		add(off(p.f.Name.End()), 0, imp)
 
